@@ -77,6 +77,13 @@ def regenerate(res):
         res.broken.append("translator T16 (bounds2gallina) rejects the current _get_first_sample / _get_last_sample: %s" % e)
         return
     common.write_if_changed(os.path.join(common.COQ, "Gen", "BoundsGen.v"), text)
+    import combine2gallina
+    try:
+        text = combine2gallina.translate(common.REPO)
+    except c2gallina.Unsupported as e:
+        res.broken.append("translator T18 (combine2gallina) rejects the current _combine_blocks: %s" % e)
+        return
+    common.write_if_changed(os.path.join(common.COQ, "Gen", "CombineGen.v"), text)
 
 
 def cdiv(a, b):
